@@ -141,7 +141,7 @@ Section WithTables.
   Definition set_string_pref (st : pstate) (key value : str) : pstate * outcome :=
     match pget key (api st) with
     | Some v => match as_str v with
-                | Some old => if str_eqb old value then ssp_go st key value true false else ssp_go st key value false true
+                | Some old => ssp_go st key value false (negb (str_eqb old value))     (* an API preference is filed as one whether or not its value changes *)
                 | None => (st, Err)       (* after the fix: "not a string-valued preference" *)
                 end
     | None =>
